@@ -26,6 +26,12 @@ func c04Strategy(r gen.Rand, k int, sp *spec.Spec) (world.Config, *spec.Spec) {
 		cfg.Executor, cfg.Parallelism, cfg.Procs = "cluster", 8, 2
 	case 4:
 		cfg.Executor, cfg.Parallelism, cfg.Procs, cfg.MachineCombiners = "cluster", 6, 4, true
+		// Tasks of one Reduce share the machine's combine buffers: make them
+		// overlap (user functions take simulated time) so that they contend.
+		cfg.UserDelays = true
+		if cfg.DelayProfile == "none" || cfg.DelayProfile == "" {
+			cfg.DelayProfile = "mixed"
+		}
 	case 5:
 		cfg.Executor, cfg.Parallelism, cfg.Chunk = "local", 4, r.Pick(1, 2, 4)
 	case 6:
